@@ -312,8 +312,8 @@ def parser_modules(F: Facts) -> Tuple[Module, Module, Dict[str, Any]]:
     info: Dict[str, Any] = {}
     # the constructor itself, or a helper / helper class of the same module that it delegates the construction to
     nodes = list(ast.walk(fi.node))
-    if not any(isinstance(n, ast.Call) and F.resolve_expr(fi.module, n.func) in (('ext', 'smartquery.ply.yacc.yacc'), ('ext', 'smartquery.ply.lex.lex'))
-               for n in nodes):
+    found_ = {F.resolve_expr(fi.module, n.func) for n in nodes if isinstance(n, ast.Call)}
+    if not {('ext', 'smartquery.ply.yacc.yacc'), ('ext', 'smartquery.ply.lex.lex')} <= found_:
         nodes = list(ast.walk(fi.module.tree))
     for n in nodes:
         if isinstance(n, ast.Call):
